@@ -130,7 +130,11 @@ impl StringGenerator {
         let mut sgr = Vec::new();
         let mut sgr_tc = Vec::new();
 
-        let fg = attr.get_foreground();
+        let mut fg = attr.get_foreground();
+        if attr.is_bold() && fg < 8 {
+            // a bold low colour is displayed as its bright counterpart
+            fg += 8;
+        }
         let cur_fore_color = buf.palette.get_color(fg);
         let cur_fore_rgb = cur_fore_color.get_rgb();
 
